@@ -235,11 +235,11 @@ fn eval_cli(ctx: &Ctx, case: &CliCase) -> Verdict {
 }
 
 pub fn check(ctx: &Ctx) -> Check {
-    let max_len = ctx.tier.pick(4, 7);
+    let max_len = ctx.tier.pick(5, 7);
     let parts: Vec<Box<dyn Part>> = vec![
         Box::new(EnumPart {
             name: "lib-exhaustive",
-            rule: "every shape with <=4 axes of length <=4 (thorough <=7) x 4 fills x 3 non-ramp value vectors (two hashed-integer, one real); per-cell definition (2s vs T), mass / idempotence / polarity laws with fill 0; non-trivial = input not mirror-antisymmetric and (>=2 axes or a length-1 axis); distinct by shape",
+            rule: "every shape with <=4 axes of length <=5 (thorough <=7) x 4 fills x 3 non-ramp value vectors (two hashed-integer, one real); per-cell definition (2s vs T), mass / idempotence / polarity laws with fill 0; non-trivial = input not mirror-antisymmetric and (>=2 axes or a length-1 axis); distinct by shape",
             exhaustive: true,
             cases: Box::new(move |_| all_shapes(4, 1, max_len).into_iter().map(|shape| ShapeCase { shape }).collect()),
             eval: Box::new(eval_shape),
@@ -247,14 +247,14 @@ pub fn check(ctx: &Ctx) -> Check {
         Box::new(RandomPart {
             name: "lib-random",
             rule: "random shapes (1..4 axes, lengths 1..7) x integer/real/sparse values x random fill; same oracle; distinct by (spectrum, fill)",
-            cases: ctx.tier.pick(4000, 60_000),
+            cases: ctx.tier.pick(15_000, 200_000),
             strategy: Box::new(|| lib_strategy().boxed()),
             eval: Box::new(eval_lib),
         }),
         Box::new(RandomPart {
             name: "cli-fold",
             rule: "sfs fold [--fill nan|zero|minus-one|inf] --precision p [-o file] on text/npy input: printed cells vs the definition at the printed precision; the four keywords map to the four values, default is nan",
-            cases: ctx.tier.pick(300, 3000),
+            cases: ctx.tier.pick(1000, 10_000),
             strategy: Box::new(|| cli_strategy().boxed()),
             eval: Box::new(eval_cli),
         }),
